@@ -30,6 +30,9 @@ HttpsAt(hs, n, svcb) ==
           [] hs = "servfail" -> Fail(2)
           [] hs = "refused"  -> Fail(5)
           [] hs = "notauth"  -> Fail(9)
+          [] hs = "ext16"    -> Fail(16)       \* extended RCODEs (RFC 6891): BADVERS, and values whose low bits look like "no error" / NXDOMAIN
+          [] hs = "ext256"   -> Fail(256)
+          [] hs = "ext259"   -> Fail(259)
           [] hs = "aliasdot" -> OK(<< RR(n, "HTTPS", Svc(0, "", "nil")) >>)
           [] hs = "svcdot"   -> OK(<< RR(n, "HTTPS", Svc(1, "", "E1")) >>)
           [] hs = "svct"     -> OK(<< RR(n, "HTTPS", Svc(1, "t", "E1")) >>)
@@ -59,6 +62,8 @@ AddrAt(shape, n, typ, ip) ==
     [] shape = "nx"       -> Fail(3)
     [] shape = "servfail" -> Fail(2)
     [] shape = "notauth"  -> Fail(9)
+    [] shape = "ext256"   -> Fail(256)
+    [] shape = "ext3840"  -> Fail(3840)
 
 VARIABLES inp, hs, as, a6s, ts,                 \* the case
           ztab,                                 \* an explicit DNS universe (Seq of [q, r]) - used by trace validation of random zones; <<>> = the shapes
@@ -71,6 +76,7 @@ Svcb == SvcbName(inp)
 \* the DNS universe of this case
 ShapeZone(q) ==
   IF q.typ = "HTTPS" THEN HttpsAt(hs, q.name, Svcb)
+  ELSE IF q.name = N("t") /\ ts = "a4fail" THEN (IF q.typ = "A" THEN Fail(2) ELSE OK(<< RR(q.name, q.typ, "t6") >>))   \* the target's A lookup fails, its AAAA lookup would succeed
   ELSE IF q.name = N("t") THEN AddrAt(ts, q.name, q.typ, IF q.typ = "A" THEN "t4" ELSE "t6")
   ELSE IF q.name = N("evil") THEN OK(<< RR(q.name, q.typ, "evil9") >>)
   \* addresses differ by owner: the origin's are o4/o6, those of any other name (alias targets) x4/x6
@@ -175,11 +181,12 @@ OnlyOwned == Done /\ result.kind = "ok" =>
                /\ \A k \in DOMAIN result.https : (result.https[k].target # "evil" /\ result.https[k].ech # "E2") \/ hs = "unsorted"
                /\ \A k \in DOMAIN result.addl : \A j \in DOMAIN result.addl[k].ips : result.addl[k].ips[j] \notin EvilData
 SortedByPriority == Done /\ result.kind = "ok" => \A a, b \in DOMAIN result.https : a < b => result.https[a].prio <= result.https[b].prio
-NxOnHttpsIsAbsence == Done /\ hs = "nx" /\ inp.valid /\ inp.literal = "" /\ as \notin {"nx", "servfail", "notauth"} /\ a6s \notin {"nx", "servfail", "notauth"} => result.kind = "ok" /\ result.https = <<>>
+FailShapes == {"nx", "servfail", "notauth", "ext256", "ext3840"}
+NxOnHttpsIsAbsence == Done /\ hs = "nx" /\ inp.valid /\ inp.literal = "" /\ as \notin FailShapes /\ a6s \notin FailShapes => result.kind = "ok" /\ result.https = <<>>
 RcodeMapping == Done /\ inp.valid /\ inp.literal = "" =>
                   /\ (hs = "servfail" => result = [kind |-> "err", class |-> "server_failure"])
                   /\ (hs = "refused" => result = [kind |-> "err", class |-> "refused"])
-                  /\ (hs = "notauth" => result = [kind |-> "err", class |-> "other"])
+                  /\ (hs \in {"notauth", "ext16", "ext256", "ext259"} => result = [kind |-> "err", class |-> "other"])
 NameLimits == Done /\ ~inp.valid /\ inp.literal = "" => result = [kind |-> "err", class |-> "invalid_name"] /\ queries = <<>>
 LoopFallsBack == Done /\ hs \in {"loop", "chain4", "chain6"} /\ result.kind = "ok" =>
                    /\ result.https = <<>>
